@@ -63,6 +63,12 @@ func (p *Paragraph) WriteTo(out io.Writer) error {
 		 * one) ends the last line; it does not start another. Each further
 		 * line is a continuation line, an empty one is written as " .". */
 		lines := strings.Split(strings.TrimSuffix(value, "\n"), "\n")
+		if strings.HasPrefix(lines[0], " ") || strings.HasPrefix(lines[0], "\t") {
+			/* The field's own line is trimmed when read, so a first line
+			 * that starts with white space can only be kept on a
+			 * continuation line. */
+			lines = append([]string{""}, lines...)
+		}
 		for i, line := range lines[1:] {
 			if line == "" {
 				line = "."
